@@ -218,7 +218,7 @@ def task(item: tuple[str, int, str]) -> dict[str, Any]:
             if cf is None or cf["kind"] != "warm_differs":
                 v = dict(v, kind="stall_invisible_edit")
                 out["faults"]["stalled_edit_invisible"] = 1
-        out["violation"] = {"scenario": scn, "violation": v, "family": fam}
+        out["violation"] = {"scenario": scn, "violation": v, "family": fam, "k": k}
     return out
 
 
@@ -230,7 +230,7 @@ def finalise_task(v: dict[str, Any]) -> dict[str, Any]:
         again = evaluate(small, "fin")["violation"]
         if again is None or vclass(again) != vclass(v["violation"]):
             raise kit.HarnessError(f"violation did not reproduce: {v['violation']}")
-    return {"scenario": small, "violation": again, "family": v["family"]}
+    return {"scenario": small, "violation": again, "family": v["family"], "k": v.get("k")}
 
 
 def run(tier: str) -> int:
@@ -270,26 +270,25 @@ def run(tier: str) -> int:
             if v["family"] == "corpus" and v["violation"]["kind"] not in SOFT:
                 key += ":" + v["scenario"]["case"] + ":" + v["scenario"]["transform"]
             by_class.setdefault(key, []).append(v)
-    unknown = []
+    unknown: dict[str, list[dict[str, Any]]] = {}
     for cls, vs in sorted(by_class.items()):
-        if vs[0]["violation"]["kind"] == "soft":
-            es = kit.match_soft(vs[0]["violation"]["classes"], known)
-            if es is not None:
-                for e in es:
-                    rep.known_finding(e["what"])
-                rep.probes["soft_" + vs[0]["violation"]["classes"]] = rep.probes.get("soft_" + vs[0]["violation"]["classes"], 0) + len(vs)
+        for v in vs:
+            if v["violation"]["kind"] == "soft":
+                es = kit.match_soft(v["violation"]["classes"], known)
+                if es is not None:
+                    for e in es:
+                        rep.known_finding(e["what"])
+                    rep.probes["soft_" + v["violation"]["classes"]] = rep.probes.get("soft_" + v["violation"]["classes"], 0) + 1
+                    continue
+            e = kit.match_member(v, known) or match_known(cls, v, known)
+            if e is not None:
+                rep.known_finding(e["what"])
+                rep.probes["known_" + cls.split(":")[1]] = rep.probes.get("known_" + cls.split(":")[1], 0) + 1
                 continue
-            unknown.append(vs[0])
-            continue
-        e = match_known(cls, vs[0], known)
-        if e is not None:
-            rep.known_finding(f"{e['what']} (occurrences this run: {len(vs)})")
-        else:
-            unknown.append(vs[0])
-    finals, _ = kit.run_pool(finalise_task, unknown)
-    for v in finals:
+            unknown.setdefault(cls, []).append(v)
+    for v in kit.finalise_classes(finalise_task, unknown):
         path = kit.write_replay(PROP, {"engine": "histsim", **v})
-        rep.violation(path, f"{v['violation']['kind']} family={v['family']}")
+        rep.violation(path, f"{v['violation']['kind']} class={v['cls']} members={v['members'][:10]}")
     rep.extra["skipped_for_budget"] = skipped
     rep.write()
     print(f"C02 {tier}: {rep.evaluations} warm/cold comparisons, {len(rep.nontrivial)} non-trivial histories, "
